@@ -99,6 +99,40 @@ def rule_R1(ctx):
 FRAME_FIELDS = ("frame_type", "stream_id", "flags", "length", "payload")
 
 
+def _with_captures(cs, closure):
+    """conditions of a predicate closure with the values it captured written in: `f.frame_type == wanted` with `wanted` captured from a
+    helper's argument that is a constant at this call reads `frame_type is <that variant>`"""
+    cl = T.strip(closure)
+    if not (cl[0] == "agg" and cl[1] == "closure" and cl[4]):
+        return cs
+    ops = cl[4]
+
+    def cap(t):
+        t0 = T.strip(t)
+        while t0[0] in ("deref", "ref"):
+            t0 = T.strip(t0[1] if t0[0] == "deref" else t0[2])
+        if t0[0] == "field" and isinstance(t0[2], int) and t0[2] < len(ops):
+            base = T.strip(t0[1])
+            while base[0] in ("deref", "ref"):
+                base = T.strip(base[1] if base[0] == "deref" else base[2])
+            if base[0] == "param" and base[1] == 0:
+                v = T.strip(ops[t0[2]])
+                while v[0] in ("deref", "ref"):
+                    v = T.strip(v[1] if v[0] == "deref" else v[2])
+                return v
+        return None
+    out = []
+    for c in cs:
+        if c[0] == "cmp" and c[1] in ("Eq", "Ne"):
+            for x, y in ((c[2], c[3]), (c[3], c[2])):
+                v = cap(y)
+                if v is not None and v[0] == "agg" and v[1] == "adt" and v[3] and not v[4]:
+                    c = ("variant", x, v[3], (c[1] == "Eq") == c[4]) + tuple(c[5:6])
+                    break
+        out.append(c)
+    return out
+
+
 def _selections(P, b):
     """How a function picks frames out of the frame list: [(mode, conds, block)], mode = "first" (the first frame satisfying conds is
     used: Iterator::find, or a forward loop that returns from inside its body) or "all" (every such frame: Iterator::filter /
@@ -131,7 +165,7 @@ def _selections(P, b):
         if T.has_call(a[0], "::rev"):
             mode = "last" if mode == "first" else mode
         for cs in Q.closure_result_conds(P, a[-1]):
-            out.append((mode, cs, blk))
+            out.append((mode, _with_captures(cs, a[-1]), blk))
     # loop spelling
     body_sites = []
     for (db, dj, full) in S.defs().get(0, []):
